@@ -257,6 +257,17 @@ def main(argv):
         return setup()
     if cmd == "list":
         return list_units()
+    if cmd == "kani1":
+        # development aid: run single harness(es) of one unit:  ./vf kani1 <unit> <harness> [...]
+        u = dict(load_units()[args[0]])
+        u["harness"] = [h for h in u["harness"] if h["name"] in args[1:]]
+        for h in u["harness"]:
+            h["tier"] = "quick"
+        with Scratch("kani1-" + args[0]) as sc:
+            res = K.run_kani([u], "quick", None, sc)
+        for r in res:
+            log(json.dumps({k: r[k] for k in ("harness", "status", "reason", "checks_total", "checks_passed", "time_s", "failed_checks", "covers")}, indent=1))
+        return 0
     if cmd == "gen":
         u = load_units()[args[0]]
         text, manifest, drops, fnlocs, side = V.build_file(u)
